@@ -95,6 +95,8 @@ pub fn execute(case: &AuthCase) -> Obs {
     let out = sim::run_sim(&case.cfg, &case.adapters, &TransportScript::default(), case.select_seed, 1000, crate::client_fn!(|c| sim::drive_login(c, &login).await));
     let now1 = cookie::now_secs();
     let client_ip = case.cfg.client_addr.parse::<SocketAddr>().unwrap().ip();
+    // a client that stalls before presenting its cookie is judged at the time of presentation
+    let now0 = if case.login.real_stall_before_auth_cookie_ms > 0 { now1 } else { now0 };
     let accept0 = cookie::accept(case.login.intent, case.cfg.secret.as_deref(), presented.as_deref(), client_ip, case.cfg.expiry, now0);
     let accept1 = cookie::accept(case.login.intent, case.cfg.secret.as_deref(), presented.as_deref(), client_ip, case.cfg.expiry, now1);
     Obs { out, presented, accept0, accept1, claimed: (case.login.name.clone(), case.login.uuid.to_string()), harvested_token }
@@ -392,6 +394,24 @@ impl Check for C01 {
             "cookie acceptance is decided by the reference predicate of C02 at the wall-clock second before and after the case; a change in between is inconclusive".into(),
         ]
     }
+    fn extra(&self, _tier: Tier, _seed: u64, stats: &crate::runner::Stats) -> Vec<(String, String, Value)> {
+        // the configured authentication service itself: an answer of the session server that names nobody
+        // (no id / no name) is not a verdict (real MojangAdapter against the loopback mock, hook H1)
+        let mut out = Vec::new();
+        let mut n = 0u64;
+        for k in 0u8..6 {
+            let body = crate::checks::c12::nobody_body(k);
+            if let Some(accepted) = crate::checks::c12::verdict_for_body(body.clone()) {
+                n += 1;
+                if accepted {
+                    out.push(("authentication-service-answer-naming-nobody-accepted".to_string(), format!("the session service answered {:?}; the Mojang adapter returned Ok(profile)", String::from_utf8_lossy(&body)), serde_json::json!({"session_server_body": String::from_utf8_lossy(&body)})));
+                    break;
+                }
+            }
+        }
+        stats.set_extra("session_service_answers_naming_nobody_checked", serde_json::json!(n));
+        out
+    }
     fn sample(&self, case: &AuthCase) -> Value {
         serde_json::json!({"intent": case.login.intent, "claimed": [case.login.name, case.login.uuid], "verdict": case.adapters.auth, "enc_resp": case.login.enc_resp, "secret_len": case.login.shared_secret.len(), "stale_token": case.stale_token, "cookie": case.cookie.as_ref().map(|c| &c.mutation), "auth_secret_configured": case.cfg.secret.is_some()})
     }
@@ -574,16 +594,43 @@ impl Check for C02 {
                     any::<u64>(),
                 )
             })
-            .prop_map(|(client_addr, expiry, (cookie, raw_cookie), intent, secret, name, uuid, auth, targets, select_seed)| AuthCase {
-                cfg: ConnCfg { secret, expiry, client_addr, ..Default::default() },
-                login: LoginScript { intent, name, uuid, ..Default::default() },
-                cookie,
-                raw_cookie,
-                stale_token: false,
-                adapters: AdapterScript { auth, discovery: Some(targets), ..Default::default() },
-                select_seed,
+            .prop_map(|(client_addr, expiry, (cookie, raw_cookie), intent, secret, name, uuid, auth, targets, select_seed)| {
+                // rarely (it costs real time): a cookie with one second of validity left when the client connects,
+                // presented 2.2 s later
+                if select_seed % 200 == 0 && expiry >= 1 && expiry < (1 << 40) {
+                    let cookie = CookieSpec {
+                        age: expiry as i64 - 1,
+                        addr: client_addr.clone(),
+                        identity: Identity { name: "Staller".into(), uuid: uuid::Uuid::from_u128(0x57a11), properties: vec![] },
+                        target: None,
+                        other_secret: None,
+                        mutation: Mutation::None,
+                    };
+                    return AuthCase {
+                        cfg: ConnCfg { secret: Some(secret.unwrap_or_else(|| b"stall".to_vec())), expiry, client_addr, ..Default::default() },
+                        login: LoginScript { intent: 3, name, uuid, real_stall_before_auth_cookie_ms: 2200, ..Default::default() },
+                        cookie: Some(cookie),
+                        raw_cookie: None,
+                        stale_token: false,
+                        adapters: AdapterScript { auth, discovery: Some(targets), ..Default::default() },
+                        select_seed,
+                    };
+                }
+                AuthCase {
+                    cfg: ConnCfg { secret, expiry, client_addr, ..Default::default() },
+                    login: LoginScript { intent, name, uuid, ..Default::default() },
+                    cookie,
+                    raw_cookie,
+                    stale_token: false,
+                    adapters: AdapterScript { auth, discovery: Some(targets), ..Default::default() },
+                    select_seed,
+                }
             })
             .boxed()
+    }
+    fn max_shrink_iters(&self) -> u32 {
+        // a few cases cost seconds of real time (stalled presentation)
+        96
     }
     fn cases(&self, tier: Tier) -> u64 {
         tier.pick(8_000, 300_000)
@@ -603,6 +650,9 @@ impl Check for C02 {
         info.class(if case.cfg.secret.is_some() { "secret:configured" } else { "secret:none" });
         if enc_request(&o.out).is_some_and(|(_, sa, _)| !sa) {
             info.class("observed:authentication_skipped");
+        }
+        if case.login.real_stall_before_auth_cookie_ms > 0 {
+            info.class("cookie_expires_while_the_client_stalls");
         }
         (c02_decide(case, &o), info)
     }
